@@ -37,7 +37,8 @@ class C07(CompSpec):
         "(all listing orders x all acyclic dependency sets x estimates in {1,3} x group assignments over 2 groups) x a 9-point parameter grid x max-nodes in {None,1,2}, plus seeded "
         "random lists of 5-12 jobs; thorough: the <= 3-job scope on the full 20-point grid, every 4-job list on a 12-point grid, 50k random lists; a dry-run twin for every 4th case "
         "and every case of <= 2 jobs; the same oracle also sees every sbatch of the system campaigns (C01-C06); oracle per batch: 1 <= n <= batch size, or sum of estimates <= "
-        "walltime x processes; one group; that group's #SBATCH lines and run options; unfinished blockers only with try-add-blocked and all in the batch; "
+        "walltime x processes, the walltime being what the scheduler understands by the --time value that was written (minutes, minutes:seconds, h:m:s, d-h[:m[:s]]; a third of the random "
+        "cases spell it non-canonically, incl. spellings JADE refuses up front); one group; that group's #SBATCH lines and run options; unfinished blockers only with try-add-blocked and all in the batch; "
         "non-trivial = case with >= 2 batches or a blocked job placed; distinct = distinct (job list, parameters)"
     )
 
@@ -72,6 +73,10 @@ class C07(CompSpec):
                 for j in scen["jobs"]:
                     j["group"] = scen["groups"][0]["name"]
                 scen["groups"][0]["time_based"] = False
+            if k % 5 == 2:
+                for g in scen["groups"]:  # equivalent spellings of the same walltime; the script must carry them verbatim
+                    g["wall_spelling"] = rng.choice(["hhms", "dhms", "h_m_s"])
+                scenario.normalize(scen)
             if k % 4 == 0:
                 scenario.to_cli_mode(scen)  # limits and run options given as options of submit-jobs
             t = sim_task(scen, s, len(out))
@@ -107,6 +112,8 @@ class C07(CompSpec):
             "random_cases": sum(r["cases"] for _, r in rn),
             "batches_checked": sum(r["batches"] for _, r in en + rn),
             "dry_run_twins": sum(r["dry_twins"] for _, r in en + rn),
+            "walltime_spellings_in_random_cases": {k: sum((r.get("walltime_spellings") or {}).get(k, 0) for _, r in rn) for k in ("hms", "hhms", "dhms", "h_m_s", "ms", "m")},
+            "random_cases_refused_up_front_nothing_handed_over": sum(r.get("refused_up_front") or 0 for _, r in rn),
             "explanation": "exhaustive: true refers to the enumerated small scope only; the random lists of 5-12 jobs are sampled",
         }
 
